@@ -98,6 +98,8 @@ def walk(connection, rain, et, z, rstep, tz_name):
     hit('instants-coincident', n_coinc)
     hit('instants-inside-gaps', n_gap)
     hit('source-gaps', ngaps)
+    inside = lambda a, b: any(a < g < b for g in exp_grid)
+    hit('gaps-without-a-grid-instant-inside', sum(1 for a, b in zip(zt, zt[1:]) if b - a > zmin and lo <= a and b <= hi and not inside(a, b)))
     stats['nontrivial'] = int(n_gap > 0 and n_interp > 0)
     stats['stretches-with-grid-instants'] = len(by_sid)
     # dedupe findings by key
